@@ -526,9 +526,16 @@ def s_real_field(idx):
     return h
 
 
+def s_vecraw(ex, p, callee, argv, lhs):
+    """IAnyVecRawPtr::any_vec_raw(_mut): a reference to the one vector the handle points to"""
+    ex.set_ret(p, lhs, ("ref", "O:vecraw", ()))
+
+
 def s_event(name, invalidate=()):
     def h(ex, p, callee, argv, lhs):
-        p.events.append((name, callee, [a for a in argv]))
+        # remember what the vector's len cell holds when user-visible work (drops / moves) happens
+        snap = p.cells.get(("O:vecraw", (2,)))
+        p.events.append((name, callee, [a for a in argv], snap))
         # capacity-like pseudo fields of the receiver become unknown
         if argv and argv[0][0] == "ref":
             for f in invalidate:
@@ -703,6 +710,14 @@ SUMMARIES = [
     (r"unwrap_or_else", s_fresh("unwrap_or_else")),
     (r"MaybeUninit::<.*>::uninit$", s_fresh("uninit")),
     (r"Arguments::<.*>::from_str$|Arguments::<.*>::new_const|Arguments::<.*>::new_v1", s_fresh("fmt_args")),
+    (r"AnyVec::<.*>::get_unchecked(_mut)?$", s_event("get_unchecked")),
+    (r"IAnyVecRawPtr>::any_vec_raw(_mut)?::<.*>$|IAnyVecRawPtr>::any_vec_raw(_mut)?$", s_vecraw),
+    (r"utils::drop_elements_range::<.*>$", s_event("drop_elements_range")),
+    (r"utils::move_elements_at::<.*>$", s_event("move_elements_at")),
+    (r"iter::Iter::<.*>::new$|Iter::<'_, .*>::new$", s_event("iter_new")),
+    (r"element_ptr_at::<.*>$|element_mut_ptr_at::<.*>$", s_event("element_ptr_at")),
+    (r"ElementPointer::<.*>::new$", s_fresh("element_pointer")),
+    (r"IteratorItem<.*>>::element_to_item$", s_passthrough),
     (r"<impl \*(const|mut) u8>::add$", s_ptr_add),
     (r"slice::from_raw_parts(_mut)?::<.*>$|from_raw_parts(_mut)?::<'?_?,? ?u8>$|from_raw_parts(_mut)?::<.*>$", s_slice),
 ]
